@@ -643,6 +643,8 @@ func run(c *hk.Ctx) {
 	runBurst(c)
 	runCancelled(c)
 	runDeliveries(c)
+	runClientBursts(c)
+	runSendAtHeaders(c)
 	// generated histories
 	for _, kind := range []string{"streamable", "legacy", "stdio"} {
 		n := nHist
